@@ -54,6 +54,7 @@ CONTRACTS = {
         'raises': {'ValueError': 'ilen(data) > 0 and haszero(data)'},
         'modifies': ['self._numvar'],
         'ensures': ['self._numvar == zmax(old(self._numvar), maxabs(data))'],
+        'ensures_on_raise': ['self._numvar == old(self._numvar)'],       # refused before anything is updated (callers rely on it)
     },
     (B, 'BaseCNF.add_clause'): {
         'property': ['C10', 'C19'],
